@@ -32,11 +32,11 @@ class Printer:
     def text(self):
         return "".join(self.buf)
 
-    def name(self, name, bid, role):
+    def name(self, name, bid, role, kind=None):
         st = self.pos
         self.w(name)
         if bid:
-            self.binders.append((bid, name, st, self.pos, role))
+            self.binders.append((bid, name, st, self.pos, role, kind))
 
     # ------------------------------------------------------------ expressions
     def paren_if(self, e, cond):
@@ -138,7 +138,7 @@ class Printer:
                 self.w(a["variant"])
                 if a["bind"] is not None:
                     self.w("(")
-                    self.name(a["bind"][0], a["bind"][1], "def")
+                    self.name(a["bind"][0], a["bind"][1], "def", "arm")
                     self.w(")")
                 self.w(" => ")
                 self.block(a["body"])
@@ -150,7 +150,7 @@ class Printer:
             for i, (n, b, t) in enumerate(e["params"]):
                 if i:
                     self.w(", ")
-                self.name(n, b, "def")
+                self.name(n, b, "def", "lparam")
                 self.w(": " + ty_src(t))
             self.w("): " + ty_src(e["ret"]) + " ")
             self.block(e["body"])
@@ -187,7 +187,7 @@ class Printer:
             self.expr(s["e"])
         elif k == "let":
             self.w("let ")
-            self.name(s["name"], s["bid"], "def")
+            self.name(s["name"], s["bid"], "def", "let")
             if s.get("ann") is not None and self.annotate:
                 self.w(": " + ty_src(s["ann"]))
             self.w(" = ")
@@ -197,7 +197,7 @@ class Printer:
             for i, (n, b) in enumerate(s["dest"]):
                 if i:
                     self.w(", ")
-                self.name(n, b, "def")
+                self.name(n, b, "def", "letd")
             self.w(") = ")
             self.expr(s["e"])
         elif k == "assign":
@@ -217,13 +217,13 @@ class Printer:
             self.w("for ")
             d = s["dest"]
             if "v" in d:
-                self.name(d["v"][0], d["v"][1], "def")
+                self.name(d["v"][0], d["v"][1], "def", "for")
             else:
                 self.w("(")
                 for i, (n, b) in enumerate(d["d"]):
                     if i:
                         self.w(", ")
-                    self.name(n, b, "def")
+                    self.name(n, b, "def", "ford")
                 self.w(")")
             self.w(" in ")
             self.expr(s["e"])
@@ -274,7 +274,7 @@ class Printer:
             for i, (n, b, t) in enumerate(f["params"]):
                 if i or f.get("method"):
                     self.w(", ")
-                self.name(n, b, "def")
+                self.name(n, b, "def", "param")
                 if self.annotate:
                     self.w(": " + ty_src(t))
             self.w(")")
